@@ -226,6 +226,9 @@ class World:
         elif kind == 'Tick':
             _, i, cnt, mt = o
             ctx.instances[ident(i)].update_tick(cnt, float(mt), float(mt + 1000000))
+        elif kind == 'Ticks':
+            for i, cnt in o[1]:
+                ctx.instances[ident(i)].update_tick(cnt, float(o[2]), float(o[2] + 1000000))
         elif kind == 'Check':
             supv.starter.check()
             supv.stopper.check()
@@ -481,13 +484,24 @@ class Sim:
 
     def tick_round(self):
         rng = self.rng
+        ticks = []
         for i in range(1, N_INST + 1):
             if self.alive[i] and rng.random() < 0.85:
                 self.counters[i] += 1 if rng.random() < 0.9 else rng.randint(2, 4)
-                self.do(('Tick', i, self.counters[i], self.now))
-                if self.crashed:
-                    return
-        self.do(('Check',))
+                if rng.random() < 0.02:
+                    self.counters[i] = rng.randint(0, 3)     # stealth restart of the remote: counter goes back
+                ticks.append((i, self.counters[i]))
+        if rng.random() < 0.15 and ticks:
+            i, cnt = ticks.pop()
+            self.do(('Tick', i, cnt, self.now))
+            if self.crashed:
+                return
+        if ticks:
+            self.do(('Ticks', ticks, self.now))
+            if self.crashed:
+                return
+        if rng.random() < 0.9:
+            self.do(('Check',))
 
     def run(self, hostile):
         rng = self.rng
@@ -550,11 +564,31 @@ def replay_ops(cf, ops):
 
 
 # ---------------------------------------------------------------- the suite
+def load_order(cf):
+    """ order of context.applications / application.processes as Context.load_processes builds them: first
+    appearance while the instances are loaded one after the other """
+    order = []
+    for i, _, _ in cf['insts']:
+        for ac in cf['apps']:
+            for pc in ac['procs']:
+                if i in pc['insts'] and (ac['name'], pc['name']) not in order:
+                    order.append((ac['name'], pc['name']))
+    app_order = []
+    for a, _ in order:
+        if a not in app_order:
+            app_order.append(a)
+    return app_order, order
+
+
 def emit_config(cf):
     apps = []
-    for ac in cf['apps']:
+    app_order, order = load_order(cf)
+    by_name = {ac['name']: ac for ac in cf['apps']}
+    for a in app_order:
+        ac = by_name[a]
         procs = []
-        for pc in ac['procs']:
+        pcs = {pc['name']: pc for pc in ac['procs']}
+        for pc in [pcs[p] for a2, p in order if a2 == a]:
             r = pc['rules']
             procs.append(app('mkPConf', pc['name'],
                              app('mkPRules', r['start'], r['stop'], r['required'], r['wait_exit'], r['sfs']),
@@ -570,6 +604,8 @@ def emit_op(o):
         return app('OpEvent', i, a, p, C(st), expected, nm)
     if kind == 'Tick':
         return app('OpTick', o[1], o[2], o[3])
+    if kind == 'Ticks':
+        return app('OpTicks', [tuple(x) for x in o[1]], o[2])
     if kind == 'Check':
         return C('OpCheck')
     if kind == 'CtxInvalidate':
@@ -669,6 +705,8 @@ class SequencerSuite(Suite):
         ops = []
         for o, now in desc['ops']:
             o = tuple(o)
+            if o[0] == 'Ticks':
+                o = ('Ticks', [tuple(x) for x in o[1]], o[2])
             ops.append((o, now, None))
         return {'cf': cf, 'ops': ops}
 
